@@ -275,7 +275,7 @@ func ruleStoreContracts(r *Run) {
 				continue
 			}
 			for _, fld := range []string{"nameIndex", "idIndex"} {
-				if r.writesField(f2, pkgModels, "EntityComponentStore", fld) {
+				if r.writesField(f2, pkgModels, "EntityComponentStore", fld) && !r.onlyFrom(f2, fn.Name) {
 					r.Check("D4", f2.Name+":writes["+fld+"]", false, f2.Body.Pos(), "the type registry is written outside AddType")
 				}
 			}
@@ -604,10 +604,10 @@ func ruleIDGenerator(r *Run) {
 	r.Check("D3", fn.Name+":cases", fresh >= 1 && recycled >= 1, fn.Body.Pos(), "New has a fresh and a recycled case")
 	// counter written nowhere else; pool written only by New and Reuse
 	for _, f2 := range r.P.All {
-		if f2 != fn && r.writesField(f2, pkgModels, "SequentialIDGenerator", "currentID") {
+		if f2 != fn && r.writesField(f2, pkgModels, "SequentialIDGenerator", "currentID") && !r.onlyFrom(f2, fn.Name) {
 			r.Check("D3", f2.Name+":writes[currentID]", false, f2.Body.Pos(), "the id counter is written outside New")
 		}
-		if f2 != fn && f2 != reuse && r.writesField(f2, pkgModels, "SequentialIDGenerator", "reusableIDs") {
+		if f2 != fn && f2 != reuse && r.writesField(f2, pkgModels, "SequentialIDGenerator", "reusableIDs") && !r.onlyFrom(f2, fn.Name, reuse.Name) {
 			r.Check("D3", f2.Name+":writes[reusableIDs]", false, f2.Body.Pos(), "the pool of reusable ids is written outside New/Reuse")
 		}
 	}
@@ -635,7 +635,7 @@ func ruleIDGenerator(r *Run) {
 					}
 				}
 				want, ok2 := allowed[key]
-				r.Check("D3", f2.Name+":Reuse["+key+"]", ok2 && want == f2.Name, call.Pos(),
+				r.Check("D3", f2.Name+":Reuse["+key+"]", ok2 && (want == f2.Name || r.onlyFrom(f2, want)), call.Pos(),
 					"ids are released only for session ids (on Remove) and frame-handler ids (on unregistering); participant, entity, component-type and asset ids are never reissued")
 				return true
 			})
@@ -900,11 +900,11 @@ func ruleRelaySync(r *Run) {
 			nSend++
 			r.CheckT("C6", u.fn.root().Name+":send-blocking", !u.ev.NonBlocking, u.ev.Pos, u.path,
 				"a message is put on the connection's send queue with a select/default: when the queue is full the message is silently dropped for that recipient")
-			okFn := u.fn.root().Name == "websocket.(*handler).send" || u.fn.root().Name == "websocket.(*handler).sendMsg"
+			okFn := r.onlyFrom(u.fn, "websocket.(*handler).send", "websocket.(*handler).sendMsg")
 			r.CheckT("C6", u.fn.root().Name+":sender-funcs", okFn, u.ev.Pos, u.path, "the send queue is fed only by the handler's send/sendMsg")
 		} else {
 			nRecv++
-			okFn := u.fn.root().Name == "websocket.(*handler).startSending"
+			okFn := r.onlyFrom(u.fn, "websocket.(*handler).startSending")
 			r.CheckT("C6", u.fn.root().Name+":single-consumer", okFn, u.ev.Pos, u.path, "the send queue is drained only by the connection's sending loop (and its shutdown drain)")
 		}
 	}
@@ -1230,7 +1230,7 @@ func ruleRegistry(r *Run) {
 			if strings.HasPrefix(c.Name, "websocket.newTest") {
 				continue
 			}
-			r.Check("E7", "caller-of-"+q.fn+"["+c.Name+"]", c.Name == q.caller, c.Body.Pos(), "SessionStore.%s is called only from %s", q.fn, q.caller)
+			r.Check("E7", "caller-of-"+q.fn+"["+c.Name+"]", c.Name == q.caller || r.onlyFrom(c, q.caller), c.Body.Pos(), "SessionStore.%s is called only from %s", q.fn, q.caller)
 		}
 	}
 	// NewSession: fresh maps, fresh UUID, fresh generators (zero values)
